@@ -345,7 +345,6 @@ func compileStruct(typ *runtime.Type, structName, fieldName string, structTypeTo
 	structDec := newStructDecoder(structName, fieldName, fieldMap)
 	structTypeToDecoder[typeptr] = structDec
 	structName = typ.Name()
-	tags := typeToStructTags(typ)
 	allFields := []*structFieldSet{}
 	for i := 0; i < fieldNum; i++ {
 		field := typ.Field(i)
@@ -364,10 +363,8 @@ func compileStruct(typ *runtime.Type, structName, fieldName string, structTypeTo
 					// recursive definition
 					continue
 				}
-				for k, v := range stDec.fieldMap {
-					if tags.ExistsKey(k) {
-						continue
-					}
+				for _, v := range stDec.allFields {
+					k := v.key
 					fieldSet := &structFieldSet{
 						dec:         v.dec,
 						offset:      field.Offset + v.offset,
@@ -392,10 +389,8 @@ func compileStruct(typ *runtime.Type, structName, fieldName string, structTypeTo
 					)
 				}
 				if dec, ok := contentDec.(*structDecoder); ok {
-					for k, v := range dec.fieldMap {
-						if tags.ExistsKey(k) {
-							continue
-						}
+					for _, v := range dec.allFields {
+						k := v.key
 						fieldSet := &structFieldSet{
 							dec:         newAnonymousFieldDecoder(pdec.typ, v.offset, v.dec),
 							offset:      field.Offset,
@@ -447,6 +442,7 @@ func compileStruct(typ *runtime.Type, structName, fieldName string, structTypeTo
 			allFields = append(allFields, fieldSet)
 		}
 	}
+	structDec.allFields = allFields
 	for _, set := range filterDuplicatedFields(allFields) {
 		fieldMap[set.key] = set
 		lower := strings.ToLower(set.key)
